@@ -6,6 +6,8 @@
 //                                           c = operations performed from inside a coroutine running under coro_queue
 //   ctor i | ctorh i h | ctorv i v | ctorhv i h v | ctorsv i j v | mov i j | movb i j | mrg i j | asg i j
 //   addh i h | pop i | clear i | del i | await i me | yield me | size i | empty i | val i | end
+//   conv i | cconv i | ares i     read the value of a typed suspend point: X(sp) on a non-const lvalue (operator X()),
+//                   X(sp) on a const lvalue (operator const X() const), sp.await_resume(); `val i` does all three in a row
 //   addme i me      sp_i << (handle of the coroutine that will later `await` with id me): in mode c me is the driver
 //                   coroutine (99) itself, in mode n a persistent awaiting coroutine `me` (>= number of counters)
 //   ctorself i me   mode c only: slot i = co_await cocls::self()   (the library's idiom to obtain the own handle)
@@ -89,8 +91,27 @@ static task counter(int id) {
     }
 }
 
+// value type of the typed suspend points: a moved-from Val is distinguishable (prints as `M`), a copy is not.
+// Self move-assignment keeps the value.
+struct Val {
+    long v = 0;
+    Val() = default;
+    explicit Val(long x) : v(x) {}
+    Val(const Val &) = default;
+    Val &operator=(const Val &) = default;
+    Val(Val &&o) noexcept : v(o.v) { o.v = -1; }
+    Val &operator=(Val &&o) noexcept {
+        if (&o != this) {
+            v = o.v;
+            o.v = -1;
+        }
+        return *this;
+    }
+    std::string str() const { return v < 0 ? std::string("M") : std::to_string(v); }
+};
+
 using SPV = cocls::suspend_point<void>;
-using SPI = cocls::suspend_point<int>;
+using SPI = cocls::suspend_point<Val>;
 
 struct Slot {
     int kind = 0;   // 0 = no object, 1 = suspend_point<void>, 2 = suspend_point<int>
@@ -114,6 +135,7 @@ struct Awaiter {
     SPV *tv = nullptr;
     SPI *tt = nullptr;
     bool passed = false;
+    std::string value;      // what `co_await typed_sp` yielded
 };
 static task awaiter_body(Awaiter *a, int me) {
     for (;;) {
@@ -128,8 +150,8 @@ static task awaiter_body(Awaiter *a, int me) {
             SPI &sp = *a->tt;
             a->tt = nullptr;
             bool suspends = !sp.await_ready();
-            int &r = co_await sp;
-            (void)r;
+            Val &r = co_await sp;
+            a->value = r.str();
             a->passed = true;
             if (suspends) log_resume(me);
         } else {
@@ -218,16 +240,16 @@ static Act exec(Ctx &c, const std::vector<std::string> &w, std::string &head, in
         c.slots[i].kind = 1;
     } else if (op == "ctorv") {
         if (!c.vacant(i)) return Act::bad;
-        new (c.slots[i].buf) SPI(num(2));
+        new (c.slots[i].buf) SPI(Val(num(2)));
         c.slots[i].kind = 2;
     } else if (op == "ctorhv") {
         auto h = c.handle(num(2));
         if (!c.vacant(i) || !h) return Act::bad;
-        new (c.slots[i].buf) SPI(h, num(3));
+        new (c.slots[i].buf) SPI(h, Val(num(3)));
         c.slots[i].kind = 2;
     } else if (op == "ctorsv") {
         if (!c.vacant(i) || !c.live(j)) return Act::bad;
-        new (c.slots[i].buf) SPI(std::move(c.slots[j].base()), num(3));
+        new (c.slots[i].buf) SPI(std::move(c.slots[j].base()), Val(num(3)));
         c.slots[i].kind = 2;
     } else if (op == "mov") {
         if (!c.vacant(i) || !c.live(j)) return Act::bad;
@@ -288,11 +310,23 @@ static Act exec(Ctx &c, const std::vector<std::string> &w, std::string &head, in
     } else if (op == "val") {
         if (!c.live(i) || c.slots[i].kind != 2) return Act::bad;
         SPI &sp = c.slots[i].t();
-        int a = static_cast<int>(sp);
-        int b = static_cast<int>(static_cast<const SPI &>(sp));
-        int d = sp.await_resume();
-        head = "val " + std::to_string(a);
-        if (b != a || d != a) head += "/" + std::to_string(b) + "/" + std::to_string(d);
+        std::string a = static_cast<Val>(sp).str();                                // operator X()
+        std::string b = static_cast<Val>(static_cast<const SPI &>(sp)).str();      // operator const X() const
+        std::string d = sp.await_resume().str();
+        head = "val " + a;
+        if (b != a || d != a) head += "/" + b + "/" + d;
+    } else if (op == "conv") {
+        if (!c.live(i) || c.slots[i].kind != 2) return Act::bad;
+        Val x = c.slots[i].t();                                                    // operator X() on a non-const lvalue
+        head = "conv " + x.str();
+    } else if (op == "cconv") {
+        if (!c.live(i) || c.slots[i].kind != 2) return Act::bad;
+        const SPI &csp = c.slots[i].t();
+        Val x = csp;                                                               // operator const X() const
+        head = "cconv " + x.str();
+    } else if (op == "ares") {
+        if (!c.live(i) || c.slots[i].kind != 2) return Act::bad;
+        head = "ares " + c.slots[i].t().await_resume().str();
     } else if (op == "await") {
         if (!c.live(i)) return Act::bad;
         slot = i;
@@ -345,8 +379,8 @@ static task driver(Ctx &c, std::istream &in) {
         } else if (a == Act::await_typed) {
             SPI &sp = c.slots[slot].t();
             bool suspends = !sp.await_ready();
-            int &r = co_await sp;
-            (void)r;
+            Val &r = co_await sp;
+            head = "aw " + r.str();
             if (suspends) log_resume(Ctx::driver_id);
         } else if (a == Act::yield) {
             co_await cocls::pause();
@@ -408,6 +442,7 @@ static void run_case(std::istream &in, bool coro_mode, int nslots, int ncoros) {
                 aw.passed = false;
                 aw.t.h.resume();
                 if (!aw.passed) head = "stuck";
+                else if (a == Act::await_typed) head = "aw " + aw.value;
             } else if (a == Act::bad || a == Act::yield || a == Act::ctorself) {
                 head = "bad";
             }
